@@ -65,6 +65,10 @@
 (*                    duplicate-free common items                           *)
 (*   concat      C07  `&` of two operands that are empty or one logged      *)
 (*                    String is the concatenation, empty read as ''         *)
+(*   typeop      C12  `x is T` / `x as T` of a single logged item: its type   *)
+(*                    (a System value's type; a FHIR element's type name    *)
+(*                    and kind read from the google/fhir descriptors) is a  *)
+(*                    subtype of T in FPTypes' hierarchy or not             *)
 (*   convfn      C13  toT() / convertsToT() of a logged System value is    *)
 (*                    what FPConvert's conversion table says (Quantity,    *)
 (*                    ambiguous date texts and the recorded toInteger      *)
@@ -95,9 +99,11 @@ Ar  == INSTANCE FPArith
 St  == INSTANCE FPStrings
 Cv  == INSTANCE FPConvert
 Tm  == INSTANCE FPTemporal
+Ty  == INSTANCE FPTypes
+Kinds == JsonDeserialize(TypesFile)         \* FHIR type name -> "resource" | "complex" | "prim" (harness c02 types)
 
-Frame(e) == [k |-> e.k, p |-> e.p, in |-> e.in, inh |-> e.inh, ic |-> e.ic, inv |-> e.inv, kids |-> <<>>]
-Kid(f, e) == [k |-> f.k, in |-> f.in, ok |-> e.ok, out |-> e.out, cls |-> e.cls, hi |-> e.hi, iv |-> e.iv, ov |-> e.outv]
+Frame(e) == [k |-> e.k, p |-> e.p, in |-> e.in, inh |-> e.inh, ic |-> e.ic, inv |-> e.inv, kids |-> <<>>, tns |-> e.tns, tname |-> e.tname]
+Kid(f, e) == [k |-> f.k, in |-> f.in, ok |-> e.ok, out |-> e.out, cls |-> e.cls, hi |-> e.hi, iv |-> e.iv, ov |-> e.outv, ot |-> e.otk]
 
 RECURSIVE SubseqFrom(_, _, _, _)
 SubseqFrom(a, i, b, j) ==           \* a[i..] embeds in b[j..] in order
@@ -302,6 +308,26 @@ ConcatLaw(f, e) ==
      THEN (IF StrOut(e) /\ e.outv[1].cp = cpOf(f.kids[1]) \o cpOf(f.kids[2]) THEN {} ELSE {<<"concat", "C07">>})
      ELSE {}
 
+(* ---- is / as on one logged item (C12) ---- *)
+(* The operand's type: a proto message is a FHIR element of the type its descriptor declares (a FHIR boolean is FHIR.boolean *)
+(* although it has a System value), anything else with a logged value is a System value.  Left open as in FPEval!IsA: xhtml, *)
+(* BackboneElement asked of a complex datatype; and names the kinds table does not hold.                                     *)
+TypeLaw(f, e) ==
+  LET kid == f.kids[1]
+      bad(c) == IF c THEN {} ELSE {<<"typeop", "C12">>}
+  IN IF Len(f.kids) # 1 \/ ~kid.ok \/ Len(kid.out) # 1 \/ Len(kid.ot) # 1 \/ f.tns \notin {"FHIR", "System"} \/ f.tname \in {"Any", "any"} THEN {}
+     ELSE LET isMsg == kid.ot[1].ty \notin {"", "?"}
+              sys == Valued(kid.ov, kid.out) /\ kid.ov[1].t \in SysT /\ kid.out[1] # "nil"
+              ty == IF isMsg THEN [ns |-> "FHIR", name |-> kid.ot[1].ty, kind |-> kid.ot[1].kind]
+                    ELSE [ns |-> "System", name |-> Ty!SystemNameOf(kid.ov[1]), kind |-> "system"]
+          IN IF kid.ot[1].ty = "?" \/ (~isMsg /\ ~sys) THEN {}          \* a message the registry does not name, a wrapper; no logged value
+             ELSE IF ty.name = "xhtml" \/ (f.tname = "BackboneElement" /\ ty.kind = "complex") THEN {}
+             ELSE IF ty.ns = "FHIR" /\ ty.name \notin DOMAIN Kinds /\ ty.name \notin Ty!AbstractFHIR THEN {}
+             ELSE LET sub0 == Ty!IsSubtype(ty.ns, ty.name, f.tns, f.tname, Kinds)
+                      sub == IF Mutant = "isNeverSubtype" THEN ty.name = f.tname ELSE sub0
+                  IN IF f.k = "Is" THEN bad(e.ok /\ e.cls = (IF sub THEN "T" ELSE "F"))
+                     ELSE bad(e.ok /\ e.out = (IF sub THEN kid.out ELSE <<>>))
+
 ConvTargetOf(p) ==
   CASE p \in {"ToBoolean", "ConvertsToBoolean"} -> "Boolean"   [] p \in {"ToInteger", "ConvertsToInteger"} -> "Integer"
     [] p \in {"ToDecimal", "ConvertsToDecimal"} -> "Decimal"   [] p \in {"ToString", "ConvertsToString"} -> "String"
@@ -369,6 +395,7 @@ EndLaws(f, e) ==
   \cup (IF f.k = "Comparison" THEN CmpLaw(f, e) ELSE {})
   \cup (IF f.k = "Arithmetic" THEN ArithLaw(f, e) \cup TemporalLaw(f, e) ELSE {})
   \cup (IF f.k = "Negation" THEN NegLaw(f, e) ELSE {})
+  \cup (IF f.k \in {"Is", "As"} THEN TypeLaw(f, e) ELSE {})
 
 Report(e, laws) ==
   laws = {} \/ \A w \in laws : PrintT(ToJson([line |-> l, ev |-> e.ev, k |-> e.k, d |-> e.d, law |-> w[1], prop |-> w[2]]))
